@@ -17,7 +17,7 @@ EXPECTED_PROBES = ["c04-boundary-judgements", "c04-level-best-vs-observed", "c04
                    "c04-best-improved", "c04-mid-metaepoch-reads"]
 ASSUMPTIONS = ["'best ever observed' for a level = best value returned by an objective invocation requested by a deme of that level (refused requests excluded)"]
 
-PROFILE = P.profile(p_cutoff=0.3, entry_w={"tree": 8, "hms": 1, "minimize": 0},
+PROFILE = P.profile(p_cutoff=0.3, p_no_elite=0.08, entry_w={"tree": 8, "hms": 1, "minimize": 0},
                     objective_kinds=None)
 TWIN_PROFILE = P.profile(entry_w={"tree": 0, "hms": 0, "minimize": 1}, p_seeded=1.0)
 
